@@ -163,6 +163,32 @@ func OracleC04(c *Case, r *Result) []Finding {
 	if bad := r.OutOfStep(); len(bad) > 0 {
 		out = append(out, Finding{"out-of-step", strings.Join(bad, "; ")})
 	}
+	// the dial prefix: nothing is written before the greeting was read; nothing at all after a greeting other than 220
+	for _, op := range r.Ops {
+		if op.Kind == 'R' && len(op.Data) > 0 {
+			break
+		}
+		if op.Kind == 'W' && op.Err == "" {
+			out = append(out, Finding{"command-before-greeting", fmt.Sprintf("wrote %q before anything was read", op.Data)})
+			break
+		}
+	}
+	if len(r.Trace) > 1 && r.Trace[0].Verb == "GREETING" && r.Trace[0].Code != 220 {
+		out = append(out, Finding{"command-after-refused-greeting", fmt.Sprintf("greeting answered %d but the client sent %q", r.Trace[0].Code, r.Trace[1].Line)})
+	}
+	// after the HELO fallback the extension map is gone: no parameters at all
+	helo := false
+	for _, e := range r.dialogue() {
+		if e.Verb == "HELO" && e.Accepted {
+			helo = true
+		}
+		if e.Verb == "EHLO" && e.Accepted {
+			helo = false
+		}
+		if helo && (e.Verb == "MAIL" || e.Verb == "RCPT") && len(e.Params) > 0 {
+			out = append(out, Finding{"param-after-helo-fallback", fmt.Sprintf("%q after the HELO fallback", e.Line)})
+		}
+	}
 	return out
 }
 
